@@ -37,6 +37,23 @@ import crosshair.core as _chcore
 # interpreter.  The harnesses never put symbolic keys into dictionaries (hashed
 # attributes are choices), so the real constructor is used instead.
 _chcore._PATCH_REGISTRATIONS.pop(dict, None)
+
+# solver accounting: every z3 Solver.check made in this process (CrossHair's
+# branch decisions, our one-query oracles, witness extraction) is counted and
+# timed
+_Z3 = {'checks': 0, 'seconds': 0.0}
+if not getattr(z3.Solver.check, '_verif_timed', False):
+    _orig_check = z3.Solver.check
+
+    def _timed_check(self, *a, **kw):
+        t0 = time.perf_counter()
+        try:
+            return _orig_check(self, *a, **kw)
+        finally:
+            _Z3['checks'] += 1
+            _Z3['seconds'] += time.perf_counter() - t0
+    _timed_check._verif_timed = True
+    z3.Solver.check = _timed_check
 from crosshair.libimpl.builtinslib import SymbolicBool, SymbolicInt
 from crosshair.options import AnalysisKind
 from crosshair.statespace import (
@@ -466,6 +483,7 @@ def explore(fn, budget_s=600.0, per_path_timeout=60.0, known=None,
     d0 = _DECISIONS[0]
     _REALIZED.clear()
     t0 = time.monotonic()
+    z0 = (_Z3['checks'], _Z3['seconds'])
     while True:
         if time.monotonic() - t0 > budget_s or \
                 (max_paths and res['iterations'] >= max_paths):
@@ -557,6 +575,8 @@ def explore(fn, budget_s=600.0, per_path_timeout=60.0, known=None,
             res['exhausted'] = True
             break
     res['decisions'] = _DECISIONS[0] - d0
+    res['z3_checks'] = _Z3['checks'] - z0[0]
+    res['solver_s'] = round(_Z3['seconds'] - z0[1], 3)
     res['wall_s'] = round(time.monotonic() - t0, 2)
     res['reached'] = dict(res['reached'])
     res['realizations'] = dict(_REALIZED)
